@@ -186,6 +186,54 @@ LongOnesAll(t) ==
   ELSE IF t = 15 THEN { [t |-> 15, fl |-> 0, v |-> [ReasonCode |-> 24, Props |-> <<PV(21, Txt(IF j = 1 THEN n ELSE 1))>> \o (IF j = 2 THEN <<PV(22, Bin(n))>> ELSE <<>>)]] : n \in Lens, j \in 1..2 }
   ELSE {}
 
+(***************************************************************************)
+(* a dictionary of texts, each placed in every text field of every packet  *)
+(* type, one field at a time: strings MQTT gives a meaning to, characters  *)
+(* that mean something to formatters, printers and parsers, every UTF-8    *)
+(* sequence length, texts that repeat other parts of the rendering         *)
+(***************************************************************************)
+DictTexts == SpecialTexts \cup
+  { <<38, 97, 61, 98>>,                                                     \* &a=b
+    <<37, 115, 37, 100, 37, 118>>, <<37>>, <<37, 33, 115, 40, 77, 73, 83, 83, 73, 78, 71, 41>>,   \* %s%d%v  %  %!s(MISSING)
+    <<32>>, <<97, 32, 98>>, <<34, 113, 34>>, <<92, 110>>, <<39>>,         \* space, a b, "q", \n (two characters), '
+    <<49, 50, 51>>, <<45, 49>>, <<48>>,                                    \* 123  -1  0
+    <<80, 85, 66, 76, 73, 83, 72>>, <<42, 42, 42, 42, 42, 42, 42, 42, 42>>, <<110, 105, 108>>, <<60, 110, 105, 108, 62>>,   \* PUBLISH ********* nil <nil>
+    <<49, 50, 32, 98, 121, 116, 101, 115>>, <<109, 97, 108, 102, 111, 114, 109, 101, 100, 33>>,      \* "12 bytes"  "malformed!"
+    <<123, 34, 97, 34, 58, 49, 125>>, <<91, 49, 32, 50, 93>>,              \* {"a":1}  [1 2]
+    <<195, 169>>, <<239, 191, 189>>, <<239, 187, 191, 97>>, <<240, 159, 152, 128>>, <<244, 143, 191, 189>>,   \* e-acute, U+FFFD, BOM + a, U+1F600, U+10FFFD
+    <<237, 159, 191>>, <<238, 128, 128>>, <<194, 160>>, <<224, 160, 128>>,  \* U+D7FF, U+E000, U+00A0, U+0800
+    [i \in 1..41 |-> IF i % 8 = 0 THEN 47 ELSE 97 + (i % 26)] }            \* 41 characters with separators
+
+TextPkts(t, tx) ==
+  LET up1 == PV(38, <<tx, Txt(1)>>)  up2 == PV(38, <<Txt(2), tx>>) IN
+  IF t = 1 THEN { [t |-> 1, fl |-> 0, v |-> [ProtocolName |-> MQTTName, ProtocolVersion |-> 5, ConnectFlags |-> 128 + 64 + 4,
+                    KeepAlive |-> 1, Props |-> IF j = 1 THEN <<PV(21, tx)>> ELSE IF j = 2 THEN <<up1>> ELSE IF j = 3 THEN <<up2>> ELSE <<>>,
+                    ClientID |-> IF j = 4 THEN tx ELSE Txt(1),
+                    WillProps |-> IF j = 5 THEN <<PV(8, tx)>> ELSE IF j = 6 THEN <<PV(3, tx)>> ELSE IF j = 7 THEN <<up1, up2>> ELSE <<>>,
+                    WillTopic |-> IF j = 8 THEN tx ELSE Txt(1), WillPayload |-> IF j = 9 THEN tx ELSE <<>>,
+                    Username |-> IF j = 10 THEN tx ELSE Txt(1), Password |-> IF j = 11 THEN tx ELSE <<1>>]] : j \in 1..11 }
+  ELSE IF t = 2 THEN { [t |-> 2, fl |-> 0, v |-> [AckFlags |-> 0, ReasonCode |-> IF j = 2 THEN 135 ELSE 0, Props |-> ps]] :
+                       j \in 1..2, ps \in {<<PV(id, tx)>> : id \in {18, 31, 26, 28, 21}} \cup {<<up1>>, <<up2>>} }
+  ELSE IF t = 3 THEN { [t |-> 3, fl |-> 0, v |-> [TopicName |-> tx, Props |-> <<>>, Payload |-> Bin(2)]],
+                       [t |-> 3, fl |-> 2, v |-> [TopicName |-> tx, PacketID |-> 9, Props |-> <<PV(9, tx)>>, Payload |-> tx]] }
+                     \cup { [t |-> 3, fl |-> 0, v |-> [TopicName |-> Txt(1), Props |-> ps, Payload |-> <<>>]] :
+                            ps \in {<<PV(3, tx)>>, <<PV(8, tx)>>, <<up1>>, <<up2>>, <<PV(9, tx)>>} }
+  ELSE IF t \in 4..7 THEN { [t |-> t, fl |-> IF t = 6 THEN 2 ELSE 0, v |-> [PacketID |-> 1, ReasonCode |-> rc, Props |-> ps]] :
+                            rc \in {0, 128}, ps \in {<<PV(31, tx)>>, <<up1>>, <<up2>>} }
+  ELSE IF t = 8 THEN { [t |-> 8, fl |-> 2, v |-> [PacketID |-> 1, Props |-> ps, Filters |-> fs]] :
+                       ps \in {<<>>, <<up1>>}, fs \in {<< <<tx, 1>> >>, << <<Txt(1), 0>>, <<tx, 2>> >>} }
+  ELSE IF t \in {9, 11} THEN { [t |-> t, fl |-> 0, v |-> [PacketID |-> 1, Props |-> ps, ReasonCodes |-> <<0, 128>>]] :
+                               ps \in {<<PV(31, tx)>>, <<up2>>} }
+  ELSE IF t = 10 THEN { [t |-> 10, fl |-> 2, v |-> [PacketID |-> 1, Props |-> <<>>, Filters |-> fs]] : fs \in {<<tx>>, <<Txt(1), tx>>} }
+  ELSE IF t = 14 THEN { [t |-> 14, fl |-> 0, v |-> [ReasonCode |-> rc, Props |-> ps]] :
+                        rc \in {0, 130}, ps \in {<<PV(31, tx)>>, <<PV(28, tx)>>, <<up1>>} }
+  ELSE IF t = 15 THEN { [t |-> 15, fl |-> 0, v |-> [ReasonCode |-> 24, Props |-> ps]] :
+                        ps \in {<<PV(21, tx)>>, <<PV(21, Txt(1)), PV(31, tx)>>, <<PV(21, Txt(1)), up2>>} }
+  ELSE {}
+(* only the fully valid ones are frames the library must accept (a wildcard in a topic name is not) *)
+DictOnes(t) == LET all == UNION {TextPkts(t, tx) : tx \in DictTexts} IN
+               {p \in (IF Thorough THEN all ELSE Sample(all, 150)) : SemOK(p)}
+
 (* quick tier: every short boundary length, and a seed-dependent dozen of the long ones per type *)
 LongOnes(t) ==
   IF Thorough THEN LongOnesAll(t)
@@ -224,7 +272,7 @@ ReadProg(fam, bytes, meta) ==
 (***************************************************************************)
 (*  family "frames": every case is an abstract wire packet                 *)
 (***************************************************************************)
-FrameCases == UNION { {[kind |-> "frame", p |-> p] : p \in WirePkts(t) \cup LongOnes(t) \cup SizedOnes(t)} : t \in TYPES }
+FrameCases == UNION { {[kind |-> "frame", p |-> p] : p \in WirePkts(t) \cup LongOnes(t) \cup SizedOnes(t) \cup DictOnes(t)} : t \in TYPES }
 
 FrameTheorems(p) ==
   LET f == Encode(p)  d == StrictDecode(f) IN
@@ -349,8 +397,10 @@ MutantTheorems(m) ==
   IF m.kind \in {"cut", "undef", "bool"}
   THEN LET vd == Verdict(f) IN
        vd.kind = "reject" /\ vd.cls = (IF m.kind = "cut" THEN "cut" ELSE m.kind)
-  ELSE IF m.kind = "vbi5" /\ m.fld # 0
-  THEN LET vd == Verdict(f) IN vd.kind = "reject" /\ vd.cls = "fifth"
+  ELSE IF m.kind = "vbi5" /\ m.fld # 0 /\ ~StrictDecode(Encode(m.p)).fm[m.fld].pv     \* a property length (the value of a property would
+  THEN LET vd == Verdict(f) IN vd.kind = "reject" /\ vd.cls = "fifth"                   \* outgrow its section: see badsubid for those)
+  ELSE IF m.kind = "badsubid"        \* a subscription identifier where the packet may carry none: its integer is still an integer
+  THEN LET vd == Verdict(f) IN Len(m.val) = 5 => vd.kind = "reject" /\ vd.cls = "fifth"
   ELSE TRUE
 
 (***************************************************************************)
@@ -436,7 +486,7 @@ BuildTheorems(p) ==
 (* packets the API can express: an empty user name or password clears its flag *)
 Buildable(p) == p.t = 1 => /\ ("Username" \in DOMAIN p.v => Len(p.v["Username"]) > 0)
                            /\ ("Password" \in DOMAIN p.v => Len(p.v["Password"]) > 0)
-BuildCases == UNION { {[kind |-> "build", p |-> p] : p \in BuildOnly(t)} : t \in TYPES } \cup UNION { {[kind |-> "build", p |-> p] : p \in {q \in WirePkts(t) \cup LongOnes(t) \cup SizedOnes(t) : Buildable(q)}} : t \in TYPES }
+BuildCases == UNION { {[kind |-> "build", p |-> p] : p \in BuildOnly(t)} : t \in TYPES } \cup UNION { {[kind |-> "build", p |-> p] : p \in {q \in WirePkts(t) \cup LongOnes(t) \cup SizedOnes(t) \cup DictOnes(t) : Buildable(q)}} : t \in TYPES }
 
 Cases == IF FAMILY = "frames" THEN FrameCases
          ELSE IF FAMILY = "mutants" THEN {m \in MutantCases : MutantValid(m)}
